@@ -317,7 +317,8 @@ def gen_unknown(g, model):
                 'values': [1] if t.tname not in STRINGS else ['a']}, 'object'
     t = g.choice(addr_tags, 'ut')
     c, i, a = t.addr
-    free = [x for x in (7, 9, 77, 301) if (c, i, x) not in model.addr][0]
+    # attribute 0 is never valid (and must not be read as "no attribute given")
+    free = g.choice([x for x in (0, 7, 9, 77, 301) if (c, i, x) not in model.addr], 'ufree')
     return {'kind': g.choice(['read', 'write', 'gas', 'sas'], 'uk'), 'ref': ('addr', (c, i, free)), 'index': None,
             'elements': 1, 'tname': t.tname, 'values': [0] if t.tname not in STRINGS else [''], 'data': b'\x00\x00'}, 'attribute'
 
